@@ -1,13 +1,16 @@
 #!/bin/bash
-# seedtest.sh <seed-dir> <check-id>...   — applies <seed-dir>/patch.diff to /repo, runs the checks, reverts.
+# seedtest.sh <seed-dir> <check-id>...  - applies <seed-dir>/patch.diff to a scratch worktree of /repo
+# (never to /repo itself), runs the checks against it with VERIF_REPO, removes the worktree.
 set -u
 HERE=$(cd "$(dirname "$0")" && pwd)
 D=$1; shift
 TIER=${TIER:-quick}
-git -C /repo apply "$D/patch.diff" || { echo "APPLY-FAILED $D"; exit 3; }
-trap 'git -C /repo checkout -- . ' EXIT
+WT=$(mktemp -d /tmp/seedtest.XXXXXX)
+git -C /repo worktree add -q --detach "$WT" HEAD || exit 3
+trap 'git -C /repo worktree remove --force "$WT" 2>/dev/null; rm -rf "$WT"' EXIT
+git -C "$WT" apply "$D/patch.diff" || { echo "APPLY-FAILED $D"; exit 3; }
 for id in "$@"; do
-  out=$("$HERE/check" "$id" "$TIER" 2>&1); rc=$?
+  out=$(VERIF_REPO="$WT" "$HERE/check" "$id" "$TIER" 2>&1); rc=$?
   nv=$(echo "$out" | grep -a -c '^VIOLATION')
   echo "== $D $id $TIER rc=$rc violations=$nv"
   echo "$out" | grep -a -E '^  signature|^HARNESS' | head -6
